@@ -178,6 +178,10 @@ def parseOp? (ts : List String) : Option Op :=
     match mk, fmt with
     | "simple", "json" => some (.cfg false false)
     | "simple", "ron" => some (.cfg false true)
+    -- `net`: a user-defined marker that carries a revision next to its id, with an allocator like the simple one;
+    -- the model's marker ids are this marker's ids (no literal `load` records in this mode)
+    | "net", "json" => some (.cfg false false)
+    | "net", "ron" => some (.cfg false true)
     | "uuid", "json" => some (.cfg true false)
     | "uuid", "ron" => some (.cfg true true)
     | "uuidapp", "json" => some (.cfg true false)
